@@ -167,7 +167,18 @@ pub fn gen_key(r: &mut Rng) -> String {
 }
 
 /// An algorithm name that is a fixpoint of per-character lower-casing and has no ','.
+/// Algorithm names related by prefix (sorting "sha2" before "sha256" needs the name, not the
+/// formatted entry), and Greek names whose last letter is a sigma (context-sensitive
+/// lower-casing would produce a final sigma).
+pub const ALG_VOCABULARY: &[&str] = &[
+    "sha", "sha1", "sha2", "sha256", "sha-1", "sha512", "sha512-256", "sha3", "sha3-512", "md5", "md5.1", "blake2", "blake2b",
+    "blake2b-256", "1", "", "a", "a0", "a:", "ασ", "οδοσ", "σ", "ασα",
+];
+
 pub fn gen_alg(r: &mut Rng) -> String {
+    if r.chance(1, 3) {
+        return r.pick(ALG_VOCABULARY).to_string();
+    }
     let n = r.range(0, 8);
     let mut s = String::new();
     for _ in 0..n {
@@ -411,6 +422,9 @@ fn vary_alg(r: &mut Rng, a: &str, enabled: bool, used: &mut u32) -> String {
                 'ǆ' => *r.pick(&['ǅ', 'Ǆ']),
                 'ω' => 'Ω',
                 'σ' => 'Σ',
+                'α' => 'Α',
+                'ο' => 'Ο',
+                'δ' => 'Δ',
                 'ᾀ' => 'ᾈ',
                 'ᾳ' => 'ᾼ',
                 _ => c,
@@ -577,6 +591,7 @@ pub const FAULT_KINDS: &[&str] = &[
     "checksum-nonhex",
     "checksum-dup-alg",
     "checksum-stray-comma",
+    "checksum-several-faults",
 ];
 
 pub fn expected_error(kind: &str) -> &'static str {
@@ -823,6 +838,29 @@ pub fn inject(r: &mut Rng, t: &Tuple, sp: &Spelled, kind: &str) -> Option<String
                 "checksum-nonhex" => {
                     let at = r.below(entries.len() + 1);
                     entries.insert(at, format!("nh{}:{}", r.below(1000), r.pick(&["zz", "0g", "g0", "0x", "é", "  ", "-1", "+1"])));
+                },
+                "checksum-several-faults" => {
+                    // two to four damaged entries of the same or of different kinds (e.g. two
+                    // odd-length digests, whose lengths add up to an even number)
+                    let n = r.range(2, 4);
+                    let same = r.coin();
+                    let first = r.below(4);
+                    for j in 0..n {
+                        let at = r.below(entries.len() + 1);
+                        let e = match if same { first } else { r.below(4) } {
+                            0 => format!("odd{j}x{}:{}", r.below(1000), r.pick(&["0", "abc", "00f", "a"])),
+                            1 => format!("nh{j}x{}:{}", r.below(1000), r.pick(&["zz", "0g", "g0"])),
+                            2 => r.pick(&["abc", "00ff", "x"]).to_string(),
+                            _ => match good.first() {
+                                Some((a, _)) => format!("{a}:{j}{j}"),
+                                None => format!("dup:{j}{j}"),
+                            },
+                        };
+                        entries.insert(at, e);
+                    }
+                    if entries.iter().filter(|e| e.starts_with("dup:")).count() == 1 {
+                        entries.push("dup:00".into());
+                    }
                 },
                 "checksum-dup-alg" if r.chance(1, 3) => {
                     // otherwise canonical: sorted, lower-case, the duplicate right next to its twin
